@@ -8,7 +8,7 @@ VERIF = os.path.dirname(os.path.dirname(os.path.abspath(__file__)))
 TECH = "deterministic simulation with fault injection"
 
 CHECKS = {
-    "C01": ("exploration Since round 7-9: Heikin-Ashi as a parameter choice, timezone-aware streams, neighbour objects fed first in the same process, the process under a zone with offset changes, the live subject under a live simulated clock and the batch twin long after.",
+    "C01": ("exploration",
             "seeded simulated feed (chunking, preload, calculate-before-append, drops, halts, duplicate timestamps, bursts, "
             "off-grid timestamps) drives one real indicator per run (all 26 classes + Amorph over all 18 pattern/movement "
             "functions; base or collapsing timeframe; fill on/off); at check points candles, readings and helper readings "
@@ -24,14 +24,14 @@ CHECKS = {
             "closedness defined as in the property; full-prefix recheck every 10th op on long runs (a repaint is found at most "
             "9 ops late)",
             TECH + ": seeded schedule/fault search, ledger (history) oracle + prefix/batch twins, ddmin + replay"),
-    "C03": ("exploration Since round 7-9: sibling members on equivalent spellings / day-shifted spans, two collapsing levels, lifespans (window of the reference), neighbour managers in the same process (other timeframes, same instants under another UTC offset), process zones with offset changes.",
+    "C03": ("exploration",
             "the world loop (exchange, feed faults drop/halt/dup/burst/off-grid, chunked delivery, repeated collapse passes) is "
             "planned into a trace and executed on the real CandleManager via four routes; after every operation the collapsed "
             "list must equal an integer-arithmetic reference resampler over everything delivered.",
             "trusts the 20-line reference resampler and the stated stream domain (second-resolution, non-decreasing timestamps); "
             "TZ pinned to UTC (zone dependence is C18)",
             TECH + ": seeded schedule/fault search, reference-model oracle, ddmin + replay"),
-    "C07": ("exploration A second meter (transient memory per append via tracemalloc, minimum over the measured appends) sees work done below the interpreter; without a timeframe the candle manager itself is measured too; probes also as bare Candle objects / same-second candles, with a never-evicting lifespan and aware timestamps.",
+    "C07": ("exploration",
             "bounded liveness in simulated steps: histories of geometrically growing length are built through the faulty feed, "
             "then single appends are measured with a deterministic interpreter-event counter (sys.monitoring LINE events in "
             "indicator/analysis/utils code and _calculate_reading invocations); work at 8x (16x) history must stay within a "
@@ -100,14 +100,14 @@ CHECKS = {
             "i) at later times, never raising; Amorph column equals that ledger live and in batch.",
             "helper-indicator exceptions on degenerate streams are discarded (C09); plain dict-valued names are not passed",
             TECH + ": two-observation-time history check over seeded growth schedules, ddmin + replay"),
-    "C18": ("fault_enumeration The wall clock is simulated (live feed clock per arrival, converted with the zone under test); neighbour managers on the stream moved by the size of an offset change; timestamps also as instances of a datetime subclass.",
+    "C18": ("fault_enumeration",
             "environment fault: every sampled trace (feed faults, chunking, optional TZ switches between operations, streams "
             "placed on 2023 DST transition days and ordinary days) is executed under UTC and under each of 10 panel zones "
             "(half-hour, 45-minute, DST, POSIX-string zones) via tzset(); collapsed candles and readings must be identical and "
             "no zone may raise.",
             "zone panel is fixed and enumerated per trace; traces are sampled; relies on glibc tzset and /usr/share/zoneinfo",
             TECH + ": TZ/DST environment fault enumerated over a zone panel per sampled trace, UTC-twin oracle"),
-    "C19": ("exploration Since round 7-9: timezone-aware streams with both ISO spellings of UTC and an offset oracle, Hexital-level timeframes with a member-based reference, read-only calls on freshly built objects before registration.",
+    "C19": ("exploration",
             "observer calls (str, repr, name, settings, has_reading, reading, prev_reading, as_list, reading_count, "
             "reading_period, candles_sum and the Hexital equivalents) are interleaved at random points with appends in every "
             "input encoding on real indicators / multi-timeframe Hexitals: deep object-graph snapshot identical across each "
